@@ -13,11 +13,7 @@ mkdir -p /tmp/vs; git -C /repo worktree remove --force $WT 2>/dev/null; rm -rf $
 git -C /repo worktree add -q --detach $WT HEAD || exit 2
 cd $WT
 PKG=$(python3 -c "import json;print(json.load(open('$SRC/meta.json'))['demo_pkg_dir'])")
-RUN=$(python3 -c "
-import json,re
-r=json.load(open('$SRC/meta.json'))['demo_run']
-m=re.search(r'(GOMAXPROCS=\\d+ +)?go test[^;&|]*', r)
-print(m.group(0).strip() if m else r)")
+RUN=$(python3 /verif/seed_run_cmd.py $SRC/meta.json)
 DEMOS=$(ls $SRC/*_test.go 2>/dev/null)
 [ -n "$DEMOS" ] || { echo "$ID: no demo test file"; }
 LOG=/tmp/vs/$ID.log; : > $LOG
